@@ -19,7 +19,7 @@ import (
 	"google.golang.org/protobuf/types/known/durationpb"
 )
 
-var msgKinds = []string{"empty", "ascii", "unicode", "floats", "extremes", "bytes", "map", "oneof", "nested", "wkt", "repeated", "tricky", "anyurl"}
+var msgKinds = []string{"empty", "ascii", "unicode", "floats", "extremes", "bytes", "map", "oneof", "nested", "wkt", "repeated", "tricky", "anyurl", "ext"}
 
 func newMsg() *dynamicpb.Message { return dynamicpb.NewMessage(msgDesc("Msg")) }
 
@@ -152,6 +152,19 @@ func genMsg(r *rand.Rand, kind string, tag int) *dynamicpb.Message {
 		am.Set(am.Descriptor().Fields().ByName("type_url"), protoreflect.ValueOfString("example.com/types/v1/google.protobuf.Duration"))
 		am.Set(am.Descriptor().Fields().ByName("value"), protoreflect.ValueOfBytes(a.GetValue()))
 		setStr(m, "name", "any-url")
+	case "ext":
+		// a proto2 sub-message with extension fields that only the schema's own files know (not the global
+		// registry): survives re-encoding only if every codec resolves types through the service's resolver
+		em := m.Mutable(fd(m, "ext")).Message()
+		em.Set(em.Descriptor().Fields().ByName("base"), protoreflect.ValueOfString(randASCII(r, 1+r.Intn(6))))
+		note, _ := harnessTypes{}.FindExtensionByName("verif.v1.note")
+		em.Set(note.TypeDescriptor(), protoreflect.ValueOfString(randUnicode(r, 1+r.Intn(6))))
+		marks, _ := harnessTypes{}.FindExtensionByName("verif.v1.marks")
+		ml := em.Mutable(marks.TypeDescriptor()).List()
+		for i, n := 0, 1+r.Intn(3); i < n; i++ {
+			ml.Append(protoreflect.ValueOfInt32(int32(r.Intn(1000)) - 500))
+		}
+		setStr(m, "name", "with-extensions")
 	case "badts":
 		// decodes from the binary form, cannot be written as JSON (timestamp out of range)
 		ts := m.Mutable(fd(m, "ts")).Message()
@@ -220,7 +233,7 @@ func encodeMsg(codec string, m proto.Message) []byte {
 		}
 		return b
 	case "json":
-		b, err := protojson.Marshal(m)
+		b, err := protojson.MarshalOptions{Resolver: harnessTypes{}}.Marshal(m)
 		if err != nil {
 			panic(err)
 		}
@@ -235,9 +248,9 @@ func decodeMsg(codec string, desc protoreflect.MessageDescriptor, data []byte) (
 	m := dynamicpb.NewMessage(desc)
 	switch codec {
 	case "proto":
-		return m, proto.Unmarshal(data, m)
+		return m, proto.UnmarshalOptions{Resolver: harnessTypes{}}.Unmarshal(data, m)
 	case "json":
-		return m, protojson.Unmarshal(data, m)
+		return m, protojson.UnmarshalOptions{Resolver: harnessTypes{}}.Unmarshal(data, m)
 	case "text":
 		return m, textCodec{}.Unmarshal(data, m)
 	}
@@ -254,7 +267,7 @@ func convertMsg(m proto.Message, as protoreflect.MessageDescriptor) proto.Messag
 		return nil
 	}
 	out := dynamicpb.NewMessage(as)
-	if err := proto.Unmarshal(raw, out); err != nil {
+	if err := (proto.UnmarshalOptions{Resolver: harnessTypes{}}).Unmarshal(raw, out); err != nil {
 		return nil
 	}
 	return out
